@@ -146,3 +146,51 @@ Proof.
     split; [intro; subst; rewrite E in Cx; discriminate|].
     destruct (apc (A s x)); cbn in Cx; try discriminate; auto.
 Qed.
+
+(* ---------------------------------------------------------------------------------------- how one step changes the queue *)
+Definition prepush (p : pc) : bool := match p with V0 | D0 | W1 => true | _ => false end.
+
+(* a blocker in the queue after a step was there before (same owner), or it was pushed by this step, by its owner at W1 *)
+Lemma q_step c x c' : Inv1 c -> step c x = Some c' -> forall b, In b (q c') ->
+  (In b (q c) /\ owner (Bk c' b) = owner (Bk c b)) \/ (exists a, x = Step a /\ apc (A c a) = W1 /\ owner (Bk c' b) = a).
+Proof.
+  intros H1 H. destruct x; step_cases0 H; intros b Hb; simp_st_in Hb; simp_st; auto.
+  all: try (pose proof (R_q _ H1 b) as Rb).
+  all: try (pose proof (R_a _ H1 a) as Ra).
+  all: try solve [left; split; [exact Hb|]; upd_tac; simp_act; reflexivity].
+  (* the push *)
+  all: try (apply in_app_iff in Hb; destruct Hb as [Hb|[<-|[]]];
+            [left; split; [exact Hb|]; specialize (Rb Hb); upd_tac; simp_act; try reflexivity; exfalso; lia
+            | right; exists a; repeat split; auto; upd_tac; reflexivity]).
+  (* a pop *)
+  all: try solve [left; split; [right; exact Hb | reflexivity]].
+  all: try solve [rewrite Eq in Hb; destruct Hb].
+Qed.
+
+(* notify_all returns only with the queue empty *)
+Lemma notify_all_done c x c' a : step c x = Some c' -> inner_ok a x = true ->
+  (apc (A c a) = A1 \/ apc (A c a) = A2 \/ apc (A c a) = A3) -> apc (A c' a) = Idle -> q c' = [].
+Proof.
+  intros H Ok W I. destruct x; cbn in Ok; try discriminate; apply Nat.eqb_eq in Ok; subst.
+  all: step_cases H; try (destruct W as [W|[W|W]]; discriminate).
+  all: revert I; simp_st; upd_tac; simp_act; try discriminate; auto.
+Qed.
+
+(* inside Condvar::wait the part before the push is only entered from the call *)
+Lemma prepush_back c x c' a : step c x = Some c' -> inner_ok a x = true -> prepush (apc (A c' a)) = true -> prepush (apc (A c a)) = true.
+Proof.
+  intros H Ok P. destruct x; cbn in Ok; try discriminate; apply Nat.eqb_eq in Ok; subst.
+  all: step_cases H; revert P; simp_st; upd_tac; simp_act; cbn; try discriminate; auto.
+  all: try (destruct (aco (A c a)); cbn; discriminate).
+Qed.
+Lemma inner_pc_frame c x c' a y : step c x = Some c' -> inner_ok a x = true -> y <> a -> A c' y = A c y.
+Proof. intros H Ok N. apply (frame_A _ _ _ y H). destruct x; cbn in Ok; try discriminate; apply Nat.eqb_eq in Ok; cbn; congruence. Qed.
+Lemma env_pc_frame c x c' y : step c x = Some c' -> env_ok x = true -> apc (A c' y) = apc (A c y) /\ q c' = q c /\ Bk c' = Bk c /\ mx c' = mx c.
+Proof.
+  intros H Ok. destruct x; cbn in Ok; try discriminate; step_cases H; simp_st; auto.
+  split; auto. upd_tac; simp_act; reflexivity.
+Qed.
+Definition is_call (x : action) : bool :=
+  match x with Lock _ | Unlock _ _ | Wait _ _ _ | NotifyAll _ | NotifyOne _ => true | _ => false end.
+Lemma call_frame c x c' : step c x = Some c' -> is_call x = true -> q c' = q c /\ Bk c' = Bk c.
+Proof. intros H Ok. destruct x; cbn in Ok; try discriminate; step_cases H; simp_st; auto. Qed.
